@@ -48,6 +48,7 @@ def psm_frame(
     extra_levels=(),
     informative_sign=1.0,
     id_prefix="",
+    twin=False,
 ):
     """Build a PSM table.  `mults` = list of spectrum multiplicities (rows per spectrum).
 
@@ -102,6 +103,9 @@ def psm_frame(
     data["f0"] = f0
     for j in range(n_noise):
         data[f"f{j + 1}"] = rng.normal(0.0, 1.0, n)
+    if twin and n_noise >= 1:
+        # a second, comparably strong feature of the opposite orientation (p-value like)
+        data["f1"] = -(rng.normal(0.0, 1.0, n) + np.where(correct, sep, 0.0)) * informative_sign
     if with_rid:
         data["rid"] = (file_index * 1_000_000 + np.arange(n)).astype(float)
     npep = n_peptides or max(2, n // 2)
@@ -145,7 +149,7 @@ def write_table(df, path: Path, row_group=None):
     return path
 
 
-def build_ondisk(path: Path, df, meta, feature_columns=None, spectrum_columns=None):
+def build_ondisk(path: Path, df, meta, feature_columns=None, spectrum_columns=None, raw_labels=False):
     """Construct an OnDiskPsmDataset directly, exactly like tests/conftest.py does
     (independent of the PIN parser)."""
     from mokapot.dataset import OnDiskPsmDataset
@@ -165,7 +169,8 @@ def build_ondisk(path: Path, df, meta, feature_columns=None, spectrum_columns=No
     metadata_column_types = [col_types[all_cols.index(c)] for c in metadata_columns]
     spectra_df = df[spectrum_columns + ["Label"]].copy()
     lab = spectra_df["Label"]
-    spectra_df["Label"] = (lab == 1) if lab.dtype != bool else lab
+    if not raw_labels:  # read_pin stores converted booleans; tests/conftest.py keeps the raw file values
+        spectra_df["Label"] = (lab == 1) if lab.dtype != bool else lab
     spectra_df = spectra_df.reset_index(drop=True)
     return OnDiskPsmDataset(
         filename=path,
